@@ -3,7 +3,7 @@
 #include <zlib.h>
 #include <ctype.h>
 
-const int gq_alts[GQ__N] = { 6, 8, 2, 3, 5, 5, 4, 6, 3, 5 };
+const int gq_alts[GQ__N] = { 6, 8, 2, 3, 5, 5, 4, 8, 3, 5 };
 const int gs_alts[GS__N] = { 2, 6, 3, 5, 5, 5 };
 
 static const char *const METHODS[] = { "GET", "POST", "HEAD", "PUT", "DELETE", "OPTIONS" };
@@ -139,6 +139,13 @@ void gx_build(const int *q, const int *s, int ord, int last, gx_msg *t, hx_buf *
                 t->auth_type = HTP_AUTH_BASIC; strcpy(t->auth_user, "Aladdin"); strcpy(t->auth_pass, "open:sesame"); t->has_auth_user = t->has_auth_pass = 1; break;
         case 5: hb_puts(req, "Authorization: Basic Z3Vlc3Q6\r\n"); addh(t->reqh, &t->nreqh, "Authorization", "Basic Z3Vlc3Q6", NULL);
                 t->auth_type = HTP_AUTH_BASIC; strcpy(t->auth_user, "guest"); t->auth_pass[0] = 0; t->has_auth_user = t->has_auth_pass = 1; break;
+        /* Digest: the user name is the value of the username PARAMETER, wherever it stands; text inside another parameter's quoted value is not a parameter */
+        case 6: { char v[160]; snprintf(v, sizeof v, "Digest realm=\"username=\", username=\"bob%d\", nonce=\"n\", uri=\"/\", response=\"x\"", ord);
+                  hb_printf(req, "Authorization: %s\r\n", v); addh(t->reqh, &t->nreqh, "Authorization", v, NULL);
+                  t->auth_type = HTP_AUTH_DIGEST; snprintf(t->auth_user, sizeof t->auth_user, "bob%d", ord); t->has_auth_user = 1; break; }
+        case 7: { char v[160]; snprintf(v, sizeof v, "Digest realm=\"r\", nonce=\"n\", uri=\"/a?username=x\", response=\"x\", username=\"al \\\"ice%d\"", ord);
+                  hb_printf(req, "Authorization: %s\r\n", v); addh(t->reqh, &t->nreqh, "Authorization", v, NULL);
+                  t->auth_type = HTP_AUTH_DIGEST; snprintf(t->auth_user, sizeof t->auth_user, "al \"ice%d", ord); t->has_auth_user = 1; break; }
         case 3: { char v[64]; snprintf(v, sizeof v, "Bearer tok%d", ord); hb_printf(req, "Authorization: %s\r\n", v); addh(t->reqh, &t->nreqh, "Authorization", v, NULL);
                   t->auth_type = HTP_AUTH_BEARER; break; }
     }
